@@ -23,10 +23,10 @@ open PySMT.AssertStack PySMT.Script
 
 /-! ### small facts about the containers -/
 
-@[simp] theorem upd_same {β : Type} (h : Nat → β) (a : Nat) (v : β) : upd h a v a = v := by simp [upd]
+@[simp] theorem upd_same {β : Type} (h : Tab β) (a : Nat) (v : β) : upd h a v a = v := by simp [upd_apply]
 
-theorem upd_other {β : Type} (h : Nat → β) {a x : Nat} (v : β) (hx : x ≠ a) : upd h a v x = h x := by
-  simp [upd, hx]
+theorem upd_other {β : Type} (h : Tab β) {a x : Nat} (v : β) (hx : x ≠ a) : upd h a v x = h x := by
+  simp [upd_apply, hx]
 
 theorem lookup_none {i : Nat} : ∀ {d : List MaxEntry}, lookup i d = none → ∀ e ∈ d, e.id ≠ i
   | [], _, e, he => by simp at he
@@ -67,7 +67,7 @@ theorem nodup_map_inj {α β : Type} (f : α → β) : ∀ {l : List α}, (l.map
       | inr hb1 => exact nodup_map_inj f h.2 ha1 hb1 hab
 
 /-- `for k, (_, goal) in max_smt_goals.items(): max_smt_goals_backtrack[k].append(len(goal.soft))` -/
-theorem pushBt_spec (heap : Nat → List (Nat × Nat)) : ∀ (d : List MaxEntry) (bt : Nat → List Nat),
+theorem pushBt_spec (heap : Tab (List (Nat × Nat))) : ∀ (d : List MaxEntry) (bt : Tab (List Nat)),
     (d.map (·.id)).Nodup →
     (∀ e ∈ d, pushBt heap d bt e.id = (heap e.addr).length :: bt e.id) ∧
     (∀ j, (∀ e ∈ d, e.id ≠ j) → pushBt heap d bt j = bt j)
@@ -94,7 +94,7 @@ theorem pushBt_spec (heap : Nat → List (Nat × Nat)) : ∀ (d : List MaxEntry)
       exact fun hc => hj e (by simp) hc.symm
 
 /-- the loop over `max_smt_goals.items()` in the `pop` branch -/
-theorem popLoop_spec (glen : Nat) : ∀ (d : List MaxEntry) (bt : Nat → List Nat) (h : Nat → List (Nat × Nat)),
+theorem popLoop_spec (glen : Nat) : ∀ (d : List MaxEntry) (bt : Tab (List Nat)) (h : Tab (List (Nat × Nat))),
     (d.map (·.id)).Nodup → (d.map (·.addr)).Nodup → (∀ e ∈ d, e.pos < glen → bt e.id ≠ []) →
     ∃ bt' h', popLoop glen d bt h = .ok (bt', h') ∧
       (∀ e ∈ d, e.pos < glen → bt' e.id = (bt e.id).tail ∧ h' e.addr = (h e.addr).take ((bt e.id).headD 0)) ∧
@@ -143,7 +143,7 @@ theorem popLoop_spec (glen : Nat) : ∀ (d : List MaxEntry) (bt : Nat → List N
           rw [h3 a (fun x hx => hj x (by simp [hx])), upd_other]
           exact fun hc => hj e (by simp) hp' hc.symm
 
-theorem delKeys_spec : ∀ (ks : List Nat) (bt : Nat → List Nat) (j : Nat),
+theorem delKeys_spec : ∀ (ks : List Nat) (bt : Tab (List Nat)) (j : Nat),
     delKeys ks bt j = if j ∈ ks then [] else bt j
   | [], bt, j => by simp [delKeys]
   | k :: ks, bt, j => by
@@ -181,7 +181,7 @@ structure SInv (s : Stack) (st : St) : Prop where
   posPref : ∀ e ∈ st.maxGoals, ∀ P ∈ prefs s, (e.pos < (slots P).length ↔ softOf e.id P ≠ [])
   maxBt : ∀ i, st.maxBt i = btOf i (prefs s)
 
-theorem sinv_init (heap : Nat → List (Nat × Nat)) (next : Nat) :
+theorem sinv_init (heap : Tab (List (Nat × Nat))) (next : Nat) :
     SInv init { St.init with heap := heap, next := next } := by
   refine ⟨by simp [init], ?_, ?_, ?_, ?_, ?_, ?_, ?_, ?_, ?_, ?_⟩
   · simp [St.init, live_init]
